@@ -193,7 +193,7 @@ func c01Run(c *core.Ctx) {
 	if c.Thorough() {
 		sizes = []int{1, 2, 7, 12, 24, 25, 26, 49, 50}
 	} else {
-		sizes = []int{1, 2, 11, 26}
+		sizes = []int{1, 2, 11, 26, 38, 50}
 	}
 	for _, n1 := range sizes {
 		for _, n2 := range sizes {
@@ -232,6 +232,29 @@ func c01Run(c *core.Ctx) {
 					cs.T, cs.R = T, R
 					r.Case("class", cs)
 					r.Try(func() { c01Check(cs, r) })
+				})
+			}
+		}
+	}
+	// The corner of the tied limit itself: two- and three-valued pools of sizes 24..25 each
+	for _, n1 := range []int{24, 25} {
+		for _, n2 := range []int{24, 25} {
+			if n1 <= k2 && n2 <= k2 {
+				continue // already covered exhaustively
+			}
+			N := n1 + n2
+			for _, T := range [][]int{{1, N - 1}, {N / 2, N - N/2}, {N - 2, 2}, {10, 15, N - 25}, {1, 1, N - 2}} {
+				if !c.Mine() {
+					continue
+				}
+				cnt := 0
+				enum.Allocations(T, n1, func(R []int) {
+					if cnt%3 == 0 { // every third allocation of these pools, lowest first
+						cs.T, cs.R = T, R
+						r.Case("class", cs)
+						r.Try(func() { c01Check(cs, r) })
+					}
+					cnt++
 				})
 			}
 		}
